@@ -21,14 +21,17 @@ from common import Ctx, REPO, frac, run_driver
 from translate import surfaces
 
 PROP = "C16"
-LEAN_MODULE = "TopSearch.Props.C16"
-LEAN_FILES = ["TopSearch.Props.C16", "TopSearch.Lemmas.Deriv", "TopSearch.Model.Surfaces", "TopSearch.Py.Expr"]
-EXTRA_TARGETS = ["TopSearch.Gen.Surfaces"]
+LEAN_MODULE = "TopSearch.Props.C16General"
+LEAN_FILES = ["TopSearch.Props.C16", "TopSearch.Props.C16General", "TopSearch.Model.LjN", "TopSearch.Lemmas.Deriv", "TopSearch.Model.Surfaces", "TopSearch.Py.Expr"]
+EXTRA_TARGETS = ["TopSearch.Gen.Surfaces", "TopSearch.Model.LjN"]
 P = "TopSearch.Props.C16."
 REQUIRED = [P + n for n in [
     "C16_camel_grad", "C16_camel_hess", "C16_camel_hess_symm",
     "C16_lj_grad_2", "C16_lj_grad_3", "C16_lj_grad_4", "C16_fg_agree",
+    "C16_ljN_pairs", "C16_ljN_energy_sum", "C16_lj_grad_N", "C16_lj_grad_N_local", "C16_lj_grad_N_sq", "C16_lj_fg_N",
+    "C16_ljN_matches_unrolled", "C16_ljN_matches_unrolled_env", "C16_ljN_translation",
     "C16_fd_exact_quadratic", "C16_fd_is_central_difference", "C16_fd_cubic_error",
+    "C16_fd_camel_is_central_difference", "C16_fd_camel_hess_is_central_difference", "C16_fd_camel_hess_symm",
     "C16_fd_hess_symm", "C16_fd_hess_exact_quadratic", "C16_fd_caller_array_untouched",
     "C16_lj_invariant", "C16_gupta_invariant", "sq3_moveAtoms", "C16_lj_rigid_motion",
     "C16_exchange_like_atoms",
@@ -45,9 +48,11 @@ ASSUMPTIONS = [
     "numpy.linalg.eigvalsh returns the ascending spectrum (oracle for the classifiers)",
     "MMFF94 is RDKit: only the numeric predicates apply to it",
 ]
-PARTIAL = ("symbolic route covers Camelback, Lennard-Jones with 2–4 atoms, Gupta Au–Ag–Au and the finite "
-           "differences on the Quadratic surface; other atom counts / Schwefel / MMFF94 and the O(h²) "
-           "truncation order for general smooth f are checked numerically only")
+PARTIAL = ("symbolic route covers Camelback, Lennard-Jones (the regenerated pair kernel and the code unrolled for "
+           "2–4 atoms; for EVERY atom count through the loop model Model/LjN.lean, whose double loop is written by "
+           "hand, proved equal to the unrolled regenerated terms at N = 2, 3, 4 and compared with the real class up "
+           "to 13 atoms), Gupta Au–Ag–Au and the finite differences on the Quadratic surface; Gupta with other atom "
+           "counts / Schwefel / MMFF94 and the O(h²) truncation order for general smooth f are checked numerically only")
 
 _EXPRS: dict = {}
 
@@ -151,6 +156,41 @@ def correspond(ctx: Ctx) -> None:
         if not close(val, float(expected), rel=tol, absol=absol):
             ctx.diverge(label.split(":")[0], f"{canon['expr']}[{canon['index']}] at {canon['point']}: generated "
                         f"expression gives {val!r}, the code gives {float(expected)!r}", canon)
+    # the loop model of Model/LjN.lean (any number of atoms; the pair kernel inside it is the regenerated ljF2 /
+    # ljGrad2) against function / gradient / function_gradient of the real class
+    ljn_lines, ljn_exp = [], []
+    for n in [2, 3, 5, 6, 8, 13][: ctx.scale(5, 6)]:
+        for _ in range(ctx.scale(4, 20)):
+            p = [c * (1.0 + 0.15 * n ** (1 / 3)) for c in lj_points(rng, n)]
+            p = [round(c * 64) / 64 for c in p]
+            if any(math.dist(p[3 * i:3 * i + 3], p[3 * j:3 * j + 3]) < 0.6 for i in range(n) for j in range(i + 1, n)):
+                continue
+            eps, sig = dyadic(rng, 0.5, 2.0, 3), dyadic(rng, 0.5, 1.5, 3)
+            lj = LennardJones(epsilon=eps, sigma=sig)
+            x = np.array(p)
+            fv, fg = lj.function_gradient(x.copy())
+            ljn_lines.append(f"ljn {n} {frac(eps)} {frac(sig)} " + ",".join(frac(v) for v in p))
+            ljn_exp.append((n, p, eps, sig, lj.function(x.copy()), lj.gradient(x.copy()), fv, fg))
+    for (n, p, eps, sig, f, g, fv, fg), got in zip(ljn_exp, run_driver("Surfaces", ljn_lines) if ljn_lines else []):
+        canon = {"expr": "ljn", "n": n, "point": p, "eps": eps, "sigma": sig}
+        ctx.stats.branch(f"ljN-loop:{n}")
+        ctx.stats.case(canon, True)
+        if got == "bad-op" or got.count("|") != 2:
+            ctx.diverge("driver:ljN-loop", f"driver answered {got[:60]}", canon)
+            continue
+        me, mg, agree = got.split("|")
+        me = rat_to_float(me)
+        mg = [rat_to_float(t) for t in mg.split(",")]
+        scale = max(1.0, max(abs(v) for v in mg))
+        if not (close(me, float(f)) and close(me, float(fv))):
+            ctx.diverge("ljN-function", f"{n} atoms at {p}: loop model energy {me!r}, function {float(f)!r}, "
+                        f"function_gradient {float(fv)!r}", canon)
+        elif len(mg) != len(g) or any(not close(a, float(b), absol=1e-9 * scale) for a, b in zip(mg, g)) or \
+                any(not close(a, float(b), absol=1e-9 * scale) for a, b in zip(mg, fg)):
+            ctx.diverge("ljN-gradient", f"{n} atoms at {p}: loop model gradient differs from gradient / function_gradient "
+                        f"(max deviation {max(abs(a - float(b)) for a, b in zip(mg, g)):.3e})", canon)
+        elif agree != "1":
+            ctx.diverge("ljN-fg", "the model's combined loop disagrees with its separate loops", canon)
     # Gupta: named functions — the translator is cross-checked in floating point
     gup = _EXPRS.get("gupta")
     if gup:
@@ -306,6 +346,20 @@ def predicates(ctx: Ctx) -> None:
                 x = keep.copy()
             if not np.array_equal(H, H.T):
                 ctx.fail("fd-hessian-asymmetric", f"finite-difference Hessian not symmetric on {name} at {x.tolist()}",
+                         {"surface": name, "x": x.tolist()})
+            # the stencil itself: component i is (f(x + h e_i) - f(x - h e_i)) / 2h with every other coordinate
+            # at its own value; only rounding of the two function values (|f| * eps / h) may separate them
+            hd = 1e-6
+            cd = np.zeros(len(x))
+            fmax = abs(float(surf.function(x.copy())))
+            for i in range(len(x)):
+                xp, xm = x.copy(), x.copy()
+                xp[i] += hd
+                xm[i] -= hd
+                cd[i] = (surf.function(xp) - surf.function(xm)) / (2.0 * hd)
+            if not np.allclose(g, cd, rtol=0, atol=200 * 2.3e-16 * max(1.0, fmax) / hd):
+                ctx.fail("fd-gradient-not-central-difference", f"default finite-difference gradient on {name} at "
+                         f"{x.tolist()} is {g.tolist()}; the central difference at that point is {cd.tolist()}",
                          {"surface": name, "x": x.tolist()})
             ref = richardson_grad(surf.function, x, h=1e-3 if name != "Schwefel" else 1e-2)
             scale = max(1.0, float(np.max(np.abs(ref))))
